@@ -742,7 +742,7 @@ func (rr *NAPTR) String() string {
 		"\"" + rr.Flags + "\" " +
 		"\"" + rr.Service + "\" " +
 		"\"" + rr.Regexp + "\" " +
-		rr.Replacement
+		sprintName(rr.Replacement)
 }
 
 // CERT RR. See RFC 4398.
@@ -1094,7 +1094,7 @@ func (rr *IPSECKEY) String() string {
 	case IPSECGatewayIPv4, IPSECGatewayIPv6:
 		gateway = rr.GatewayAddr.String()
 	case IPSECGatewayHost:
-		gateway = rr.GatewayHost
+		gateway = sprintName(rr.GatewayHost)
 	case IPSECGatewayNone:
 		fallthrough
 	default:
@@ -1123,7 +1123,7 @@ func (rr *AMTRELAY) String() string {
 	case AMTRELAYIPv4, AMTRELAYIPv6:
 		gateway = rr.GatewayAddr.String()
 	case AMTRELAYHost:
-		gateway = rr.GatewayHost
+		gateway = sprintName(rr.GatewayHost)
 	case AMTRELAYNone:
 		fallthrough
 	default:
